@@ -325,10 +325,10 @@ theorem rt_projects_to_engine (c : RCx) (hq : Quiet c) (hn : NoInvoke c.m) (h : 
     (∀ ev, (processEventRT c h ev rt).st = processEvent h c.fl c.m c.u ev rt.st) ∧
     (∀ fuel, (transientLoopRT c h fuel rt).st = transientLoop h c.fl c.m c.u fuel rt.st) ∧
     (c.fl = .async → ∀ fuel, (asyncDrainRT c fuel rt).st = asyncDrain c.m c.u fuel rt.st) ∧
-    (c.fl = .sync → ∀ budget, (drainLoopRT c budget rt).st = drainLoop c.m c.u budget rt.st) :=
+    (c.fl = .sync → ∀ fuel chained, (drainLoopRT c fuel chained rt).st = drainLoop c.m c.u fuel chained rt.st) :=
   ⟨fun ev pl => runPlan_st c hq hn h ev pl rt, fun ev pl => execute_st c hq hn h ev pl rt,
    fun ev => processEvent_st c hq hn h ev rt, fun fuel => transientLoop_st c hq hn h fuel rt,
-   fun hfl fuel => asyncDrain_st c hfl hq hn fuel rt, fun hfl budget => drainLoop_st c hfl hq hn budget rt⟩
+   fun hfl fuel => asyncDrain_st c hfl hq hn fuel rt, fun hfl fuel chained => drainLoop_st c hfl hq hn fuel chained rt⟩
 
 /-! ## 7. the known defects, as theorems about concrete runs -/
 
